@@ -330,6 +330,15 @@ func judge(out *CheckOutcome, tier string, verbose bool) *Verdict {
 		}
 		sort.Strings(v.Missing)
 	}
+	// A contract that no longer applies to the code (its target is gone, a field it names no
+	// longer exists, a clause no longer evaluates) means obligations that were discharged on
+	// the unchanged tree can no longer be established: that is reported, not swallowed.
+	if len(out.Errors) > 0 && haveLedger {
+		r := &OblResult{Name: prop + "/contract-applies", Class: "contract", Kind: "prove", Status: "undecided",
+			Clause: "every contract of this property still applies to the code (targets exist, clauses evaluate)",
+			Solve: SolveResult{Status: "unknown", Winner: "govc", Answers: []SolverAnswer{{Solver: "govc", Status: "error", Raw: strings.Join(out.Errors, " | ")}}}}
+		v.Violations = append(v.Violations, r)
+	}
 	return v
 }
 
